@@ -54,6 +54,74 @@ example :
     makespan (dispatchRule .lpt jobs) = 12 ∧ makespan (dispatchRule .mwkr jobs) = 10 := by
   decide
 
+/-- `_rebuild_schedule` (whatever old schedule, target machine and machine order it is given)
+returns a valid schedule: its priority sort is a chooser. -/
+theorem rebuild_valid (jobs : Jobs) (old : List Entry) (target : Nat) (order : List (Nat × Nat)) :
+    ValidSchedule jobs (rebuild jobs old target order) :=
+  (dispatch_chooser_valid jobs _ (rebuildChoose_chooser jobs old target order)).2
+
+/-- C18 `local_search_valid`: the mirror of the local-search loop of `solve_job_shop`, started from
+any valid schedule and run on **any** sequence of drawn machines (any seed, any length), returns a
+valid schedule, reports exactly its latest end, and never reports more than it started with. -/
+theorem local_search_valid (jobs : Jobs) (init : List Entry) (draws : List Nat) (h : ValidSchedule jobs init) :
+    ValidSchedule jobs (localSearch jobs init draws).sched ∧
+    (localSearch jobs init draws).obj = makespan (localSearch jobs init draws).sched ∧
+    (localSearch jobs init draws).obj ≤ makespan init := by
+  have step : ∀ (st : LState) (m : Nat), (ValidSchedule jobs st.sched ∧ st.obj = makespan st.sched) →
+      (ValidSchedule jobs (lsStep jobs st m).sched ∧ (lsStep jobs st m).obj = makespan (lsStep jobs st m).sched)
+      ∧ (lsStep jobs st m).obj ≤ st.obj := by
+    intro st m hst
+    unfold lsStep
+    simp only
+    split
+    · exact ⟨hst, Int.le_refl _⟩
+    · split
+      · rename_i new mk hf
+        obtain ⟨⟨i, hi⟩, h2, h3⟩ := firstImproving_some hf
+        refine ⟨⟨?_, h2⟩, Int.le_of_lt h3⟩
+        simp only; rw [hi]; exact rebuild_valid _ _ _ _
+      · exact ⟨hst, Int.le_refl _⟩
+  have run : ∀ (ds : List Nat) (n : Nat) (st : LState),
+      (ValidSchedule jobs st.sched ∧ st.obj = makespan st.sched) →
+      (ValidSchedule jobs (lsRun jobs n ds st).sched ∧ (lsRun jobs n ds st).obj = makespan (lsRun jobs n ds st).sched)
+      ∧ (lsRun jobs n ds st).obj ≤ st.obj := by
+    intro ds n
+    induction ds with
+    | nil => intro st hst; exact ⟨hst, Int.le_refl _⟩
+    | cons m ms ih =>
+      intro st hst
+      have hs := step st m hst
+      unfold lsRun
+      simp only
+      split
+      · exact hs
+      · have := ih _ hs.1
+        exact ⟨this.1, Int.le_trans this.2 hs.2⟩
+  have := run draws Solvor.Gen.Sched.js_max_no_improve.toNat ⟨init, makespan init, 0⟩ ⟨h, rfl⟩
+  unfold localSearch
+  exact ⟨this.1.1, this.1.2, this.2⟩
+
+/-- C18 `solve_job_shop_valid`: the mirror of the whole of `solve_job_shop` (dispatch under a
+deterministic rule, then local search over any drawn machines) returns a valid schedule whose
+reported objective is its latest end. -/
+theorem solve_job_shop_valid (r : Rule) (jobs : Jobs) (draws : List Nat) :
+    ValidSchedule jobs (localSearch jobs (dispatchRule r jobs) draws).sched ∧
+    (localSearch jobs (dispatchRule r jobs) draws).obj =
+      makespan (localSearch jobs (dispatchRule r jobs) draws).sched ∧
+    ∀ e ∈ (localSearch jobs (dispatchRule r jobs) draws).sched,
+      e.fin ≤ (localSearch jobs (dispatchRule r jobs) draws).obj := by
+  have h := local_search_valid jobs _ draws (dispatch_rule_valid r jobs)
+  refine ⟨h.1, h.2.1, ?_⟩
+  rw [h.2.1]
+  exact (makespan_spec _).1
+
+/-- Non-vacuity: on the docstring instance the local search (machines 0, 1 drawn) improves the
+SPT schedule from 11 to 10. -/
+example :
+    let jobs : Jobs := [[(0, 3), (1, 2), (2, 2)], [(0, 2), (2, 1), (1, 4)]]
+    (localSearch jobs (dispatchRule .spt jobs) [0, 1, 2, 0]).obj = 10 := by
+  decide +kernel
+
 /-- T-spec: the Boolean checker the driver evaluates on every schedule the implementation returns
 decides exactly "valid schedule and reported objective = latest end". -/
 theorem chkSchedule_iff (jobs : Jobs) (S : List Entry) (obj : Int) :
